@@ -28,10 +28,18 @@ CHECKS = {
          "All 256/65536 integer values and a dense boundary alphabet of i32/f32 values are converted through the real dynamic entry point for every type pair; monotonicity, endpoints, saturation, round trips and the accept/reject matrix are judged on the whole enumerated domain.",
          "i32/f32 sources are not enumerated completely (2^32 values): power-of-two neighbourhoods, a stride sweep and per-binade grids are the stated alphabet.",
          "DESIGN.md §4 C17"),
+ "C10": ("exact invariant check on the implementation's own integer coefficient tables for every geometry (model level, decides all component values), bound to the code by bounded-exhaustive direct resizes of uniform images",
+         "Model level: for every geometry of the model space (full square of sizes up to S, boundary sizes up to 65537 against every small size, CROP1, 7 filters, adaptive on/off) the i16/i32 tables the real normalisers produce are read through the hook and Σk is checked exactly against 2^p, which decides the property for every one of the 256/65536 values. Direct: every 1-D geometry up to N x crops x 14 algorithms x 13 types x back-ends x 2 orientations on images whose line r carries value r (all 256 8-bit values), plus 2-D shapes with SuperSampling; alpha off and alpha at its maximum.",
+         "Geometry bounded (S=40/160, N=12/32, extreme ratios from a list); float types only on the listed values; windows with zero total weight have no defined value and are excluded.",
+         "DESIGN.md §4 C10"),
  "C14": ("bounded-exhaustive enumeration of view kinds x view sizes x every (start,size,parts) triple x direction with split-of-split, rectangle-model oracle with tag images and paint-and-inspect for mutable parts",
          "For every view kind (owned, referenced, cropped, nested, mutable, and a harness view using only the trait defaults), every view size up to BxB inside parents with margins, every (start,size,parts) incl. invalid ones and values near u32::MAX, and both directions, the real split functions are called; immutable parts are read back pixel by pixel against tags, mutable parts paint their index and the whole root image is compared with the expected index map, and every part is split again (depth 2). Both build profiles.",
          "B = 8 quick / 20 thorough; depth-2 splits for views up to 5x5 / 8x8; which parts get the remainder is not checked.",
          "DESIGN.md §4 C14"),
+ "C18": ("sign and sum invariants on the implementation's coefficient tables for every geometry (decides all contents for 8/16-bit), plus bounded-exhaustive direct checks of range and of ordered image pairs",
+         "Model level: for the four non-negative filters every i16/i32 coefficient and f64 weight of every geometry of the model space is >= 0 and the weights form a partition of unity; with the E2 conformance replays of C02 (kernels == clip((2^(p-1)+Σk·x)>>p)) this implies no overshoot and monotonicity for every image and every ordered pair of 8/16-bit formats. Direct: 1-D geometries up to N x crops x 8 algorithms x 13 types x back-ends x 2 orientations and 2-D shapes incl. SuperSampling on range-limited contents (touching 0, max, negative i32) and ordered pairs.",
+         "Float/I32 formats are covered only by the direct enumeration (listed contents); one f32 ulp tolerance for floats.",
+         "DESIGN.md §4 C18"),
  "C15": ("bounded-exhaustive enumeration of the real function over all size quadruples up to a bound x centering alphabet, judged by an f64 oracle",
          "Every (src,dst) size quadruple up to the bound, a boundary alphabet up to 65535 and the full centering alphabet are executed on the real CropBox::fit_src_into_dst_size and through Resizer::resize; a pure function of five scalars is decided by enumeration of its (bounded) domain.",
          "Sizes above the bound only through the 14-value boundary alphabet; tolerances 4 ulp (aspect) / 2 ulp (centering).",
